@@ -457,7 +457,9 @@ DelTag(st, id, t) ==
   LET tgt == IdxNamed(st, id) IN
   IF tgt = {} THEN {Fail(st, "NotFoundError"), Fail(st, "Error")}
   ELSE LET i == CHOOSE i \in tgt : TRUE IN
-       {Ok([st EXCEPT !.lines[i] = WithoutTag(st.lines[i], t.tagn[1])])}
+       IF t.tagn[1] = "ID" /\ st.lines[i].rt \in {"L", "C"}
+         THEN {Ok([st EXCEPT !.lines[i].name = "*"])}        \* the ID tag is the identifier of an L/C line
+       ELSE {Ok([st EXCEPT !.lines[i] = WithoutTag(st.lines[i], t.tagn[1])])}
 
 Step(st, op) ==
   CASE op.k = "add"   -> Add(st, op.l)
